@@ -12,6 +12,14 @@ CHECKS = {
    text="Model-based state-machine search: every Recv result of a real REQ socket (1-3 contexts, 1-3 connections) is compared with a reference model while the harness, acting as the REP peers on a scripted transport, injects current, stale, foreign, duplicate, bit-less, random and short replies. Generated histories, not exhaustive.",
    note="Trusts the vt barrier (receiver back in Recv) as the definition of 'reply arrived'; blocking predictions use a 40 ms deadline (lower bound exact). Histories are bounded (~30-100 steps, 3 contexts, 3 pipes).",
    technique="stateful property-based testing (rapid state machine) against a reference model over a virtual transport"),
+ "C04": dict(
+   text="Fault-sequence search: generated scripts of connection loss / silence / blocked pipes / answers / replacement against a REQ socket on a scripted transport; a token simulation over the time-stamped transmission log decides 'byte-identical', 'never sooner than the retry interval or a carrier close', 'one connection per (re)transmission' and 'never after answered/cancelled/closed'; bounded waits decide 're-sent after close / after the interval' and 'retries disabled cancels'.",
+   note="Real time: lower bounds are exact (harness stamps before Send/Close, transport stamps at transmission); 'is re-sent' is checked within generous 2.5 s bounds, not as liveness. Scripts have <=6 events, <=3 pipes, <=2 contexts, R in {0,20,40,80} ms.",
+   technique="property-based fault injection (rapid) with a history invariant (token simulation) over a virtual transport"),
+ "C05": dict(
+   text="Model-based state-machine search over rep/respondent (1-3 contexts) and xrep/xrespondent with 1-4 scripted connections: every reply must appear on exactly the requesting pipe with wire bytes routing-words||id||body; per-pipe transmission logs must equal the model after a sentinel round (nothing extra anywhere); replies to vanished pipes are discarded; Send without a request fails.",
+   note="Which pending request a Recv obtains is checked with a validity predicate (oldest pending of some pipe). Routing depth 0..7 (default TTL 8). Histories bounded by rapid's step count.",
+   technique="stateful property-based testing (rapid) against a reference model over a virtual transport, sentinel for absence"),
 }
 
 ALL = ["C%02d" % i for i in range(1, 21)]
